@@ -7,6 +7,7 @@ import GramModel.Lemmas.Fuel
 import GramModel.Typing
 import GramModel.Lemmas.UnifySound
 import GramModel.Lemmas.ConvCoherence
+import GramModel.Lemmas.UnifyAcyclic
 
 /-!
 # C12 — unification succeeds only with a consistent, well-scoped solution
@@ -402,3 +403,167 @@ sides and unifies the i-th child with the i-th child, every child (λ: bodies on
 nine alternatives of the shared arm for binary operators, which the model has as ONE constructor. -/
 def C12_unify_pairs_tie_stmt : Prop := pairsOK Generated.unifyPairs = true
 theorem C12_unify_pairs_tie : C12_unify_pairs_tie_stmt := by unfold C12_unify_pairs_tie_stmt; decide
+
+/-! ## The occurs check keeps the hole store acyclic (`Lemmas/UnifyAcyclic.lean`)
+
+`UnifyAcyclic.Edge σ i j`: cell `i` is solved and its solution mentions cell `j`; `Reaches σ`: transitive closure;
+`ReachT σ t j`: `j` is mentioned by `t`, directly or through solved cells; `Acyclic σ`: no cell reaches itself;
+`Guarded σ σ'`: `σ'` comes from `σ` by allocations of empty cells and *guarded assignments* `id := sol` (`id`
+empty, every cell mentioned by `sol` empty and different from `id`).  No well-formedness of cell ids is needed:
+an id beyond the end of the store reads as an empty cell, and writing to it does nothing. -/
+
+/-- **`unify` keeps the store acyclic**, at every fuel, for all terms and states, whatever the answer: its run
+is a sequence of allocations of empty cells (the hole copies of `open`, inside weak head normalisation) and
+guarded assignments, and these preserve acyclicity. -/
+def C12_unify_acyclic_stmt : Prop :=
+  ∀ (f : Nat) (a b : Tm) (r : Bool) (s s' : St), unifyS f a b s = .ok r s' →
+    UnifyAcyclic.Guarded s.store s'.store ∧
+    (UnifyAcyclic.Acyclic s.store → UnifyAcyclic.Acyclic s'.store)
+theorem C12_unify_acyclic : C12_unify_acyclic_stmt := by
+  intro f a b r s s' h
+  exact ⟨UnifyAcyclic.unifyS_guarded h, (UnifyAcyclic.unifyS_guarded h).acyclic⟩
+
+/-- Weak head normalisation only appends empty cells, hence keeps the store acyclic; syntactic equality leaves
+the whole state as it was. -/
+def C12_whnf_syneq_acyclic_stmt : Prop :=
+  (∀ (f : Nat) (t r : Tm) (s s' : St), whnfS f t s = .ok r s' →
+    (∃ k, s'.store = s.store ++ List.replicate k none) ∧
+    (UnifyAcyclic.Acyclic s.store → UnifyAcyclic.Acyclic s'.store)) ∧
+  (∀ (f : Nat) (a b : Tm) (r : Bool) (s s' : St), synEqS f a b s = .ok r s' → s' = s)
+theorem C12_whnf_syneq_acyclic : C12_whnf_syneq_acyclic_stmt :=
+  ⟨fun f t _ _ _ h => ⟨((StoreMono.whnfS_pres f t).out _ _ _ h).1, (UnifyAcyclic.whnfS_guarded h).acyclic⟩,
+   fun _ _ _ _ _ _ h => UnifyAcyclic.synEqS_state h⟩
+
+/-- The whole type checker (which calls `unify`, allocates the holes of applications and opens codomains)
+keeps the store acyclic. -/
+def C12_infer_acyclic_stmt : Prop :=
+  ∀ (f : Nat) (t : Tm) (r : Tm × Tm) (s s' : St), inferS f t s = .ok r s' →
+    UnifyAcyclic.Guarded s.store s'.store ∧
+    (UnifyAcyclic.Acyclic s.store → UnifyAcyclic.Acyclic s'.store)
+theorem C12_infer_acyclic : C12_infer_acyclic_stmt := by
+  intro f t r s s' h
+  exact ⟨UnifyAcyclic.inferS_guarded h, (UnifyAcyclic.inferS_guarded h).acyclic⟩
+
+/-- **The occurs check is exact.**  `collect_unifiers`, as used by `unify` (`occursS`), answers `true` iff the cell
+is an empty cell mentioned by the term directly or through solved cells; and it does not change the state. -/
+def C12_occurs_exact_stmt : Prop :=
+  ∀ (f id : Nat) (t : Tm) (b : Bool) (s s' : St), occursS f id t s = .ok b s' →
+    s' = s ∧ (b = true ↔ (UnifyAcyclic.ReachT s.store t id ∧ StoreMono.Empty s.store id))
+theorem C12_occurs_exact : C12_occurs_exact_stmt := by
+  intro f id t b s s' h
+  exact ⟨WhnfLemmas.occursS_state h, (UnifyAcyclic.occursS_spec f).1 id t s b s' h⟩
+
+/-- **Lowering cannot smuggle a cell past the occurs check.**  `signed_shift` expands solved cells; every cell
+mentioned by its result is an *empty* cell reachable from its argument — exactly the cells the occurs check
+(run on the un-lowered term) inspects. -/
+def C12_lowering_holes_stmt : Prop :=
+  ∀ (f c : Nat) (amt : Int) (t r : Tm) (s s' : St), sshiftS f c amt t s = .ok (some r) s' →
+    s' = s ∧ ∀ j ∈ UnifyAcyclic.holesOf r, StoreMono.Empty s.store j ∧ UnifyAcyclic.ReachT s.store t j
+theorem C12_lowering_holes : C12_lowering_holes_stmt := by
+  intro f c amt t r s s' h
+  exact ⟨UnifyAcyclic.sshiftS_state h, (UnifyAcyclic.sshiftS_holes f).1 c amt t s r s' h⟩
+
+/-- **No hole is solved by a term containing itself.**  At the moment `solveS` assigns `id := sol` (`sol` = the
+other side lowered by the hole's shift, in the store `s.store` before the assignment): every cell mentioned by
+`sol` is empty, different from `id` and reachable from the other side; `id` is not reachable from `sol`; and if
+`id` is empty (it always is where `unifyS` calls `solveS`) it is not reachable from the other side either. -/
+def C12_assigned_not_self_stmt : Prop :=
+  ∀ (f id shift : Nat) (other : Tm) (s s' : St), solveS f id shift other s = .ok (some true) s' →
+    ∃ sol, sshiftS f 0 (-(shift : Int)) other s = .ok (some sol) s ∧
+      s' = { s with store := s.store.set id (some sol) } ∧
+      (∀ j ∈ UnifyAcyclic.holesOf sol,
+        StoreMono.Empty s.store j ∧ j ≠ id ∧ UnifyAcyclic.ReachT s.store other j) ∧
+      ¬ UnifyAcyclic.ReachT s.store sol id ∧
+      (StoreMono.Empty s.store id → ¬ UnifyAcyclic.ReachT s.store other id)
+theorem C12_assigned_not_self : C12_assigned_not_self_stmt := by
+  intro f id shift other s s' h
+  rcases UnifyAcyclic.solveS_cases h with ⟨e, _⟩ | ⟨e, _⟩ | ⟨_, sol, h1, h2, e⟩
+  · cases e
+  · cases e
+  · have := UnifyAcyclic.solveS_assign h1 h2
+    exact ⟨sol, h1, e, this.1, this.2.1, this.2.2⟩
+
+/-- **The scoping clause at store level** (holes allowed in the other side and in the store): when `solveS`
+assigns `id := sol` for a hole written with shift `k`, and no hole lies below a cutoff (`hdeep`, `storeDeep` —
+necessary, `C12_unify_holedepth_witness`), then under any store `σ` extending the current one, whatever the
+other side reads as (`zo`), `sol` reads as `zo` lowered by `k` binders: raising it back gives `zo`, and once
+`zo` is hole-free every free variable of the reading of `sol`, raised by `k`, is a free variable of `zo`, none
+of the `k` innermost variables being used. -/
+def C12_solution_scoped_store_stmt : Prop :=
+  ∀ (f id k : Nat) (other : Tm) (s s' : St), solveS f id k other s = .ok (some true) s' →
+    storeDeep s.store → hdeep 0 other = true →
+    ∃ sol, s'.store = s.store.set id (some sol) ∧
+      ∀ σ, storeExtends s.store σ → ∀ zo, (∃ n, zonk n σ other = some zo) →
+        ∃ zs, (∃ n, zonk n σ sol = some zs) ∧ sshift 0 (-(k : Int)) zo = some zs ∧ ushift 0 k zs = zo ∧
+          (zo.holeFree = true →
+            (∀ j, freeAt zs j = true → freeAt zo (j + k) = true) ∧ ∀ j, j < k → freeAt zo j = false)
+theorem C12_solution_scoped_store : C12_solution_scoped_store_stmt :=
+  fun _ _ _ _ _ _ h hS hd => UnifyAcyclic.solveS_scoped h hS hd
+
+/-- **`zonk` terminates on an acyclic store**: every term can be zonked with some fuel. -/
+def C12_zonk_terminates_stmt : Prop :=
+  ∀ (σ : List (Option Tm)) (t : Tm), UnifyAcyclic.Acyclic σ → ∃ fuel z, zonk fuel σ t = some z
+theorem C12_zonk_terminates : C12_zonk_terminates_stmt :=
+  fun _ t h => UnifyAcyclic.zonk_terminates_of_acyclic h t
+
+/-- Hence after any run of `unify` or of the type checker from an acyclic store (e.g. the empty store, or any
+store of empty cells), every term can be zonked. -/
+def C12_zonk_after_unify_stmt : Prop :=
+  (∀ (f : Nat) (a b : Tm) (r : Bool) (s s' : St), UnifyAcyclic.Acyclic s.store →
+    unifyS f a b s = .ok r s' → ∀ t, ∃ fuel z, zonk fuel s'.store t = some z) ∧
+  (∀ (f : Nat) (t : Tm) (r : Tm × Tm) (s s' : St), UnifyAcyclic.Acyclic s.store →
+    inferS f t s = .ok r s' → ∀ u, ∃ fuel z, zonk fuel s'.store u = some z) ∧
+  (∀ n, UnifyAcyclic.Acyclic (List.replicate n (none : Option Tm)))
+theorem C12_zonk_after_unify : C12_zonk_after_unify_stmt :=
+  ⟨fun _ _ _ _ _ _ ha h t => UnifyAcyclic.zonk_terminates_of_acyclic ((UnifyAcyclic.unifyS_guarded h).acyclic ha) t,
+   fun _ _ _ _ _ ha h t => UnifyAcyclic.zonk_terminates_of_acyclic ((UnifyAcyclic.inferS_guarded h).acyclic ha) t,
+   fun n => (UnifyAcyclic.Terminating.replicate n).acyclic⟩
+
+/-- `Acyclic` (no cell reaches itself) coincides with well-foundedness of the "mentions" relation (no infinite
+chain of solved cells), and the executable checker `acyclicB` is sound for both. -/
+def C12_acyclic_checker_stmt : Prop :=
+  ∀ (σ : List (Option Tm)), (UnifyAcyclic.Acyclic σ ↔ UnifyAcyclic.Terminating σ) ∧
+    (UnifyAcyclic.acyclicB σ = true → UnifyAcyclic.Acyclic σ)
+theorem C12_acyclic_checker : C12_acyclic_checker_stmt :=
+  fun _ => ⟨UnifyAcyclic.acyclic_iff_terminating, UnifyAcyclic.acyclicB_acyclic⟩
+
+/-! ### Non-vacuity -/
+
+-- a store with a solved chain `?0 := ?1`, `?1 := ?2 -> int` and two empty cells is acyclic; `?3` is solved
+-- by `?0 -> bool`, recorded with the chain expanded; the store after is acyclic (by the theorem and by the checker)
+example : UnifyAcyclic.Acyclic
+    [some (.hole 1 0), some (.pi 0 false (.hole 2 0) .int), none,
+     some (.pi 0 false (.pi 0 false (.hole 2 0) .int) .bool)] :=
+  (C12_unify_acyclic 20 (.hole 3 0) (.pi 0 false (.hole 0 0) .bool) true { store := UnifyAcyclic.exStore }
+    { store := [some (.hole 1 0), some (.pi 0 false (.hole 2 0) .int), none,
+        some (.pi 0 false (.pi 0 false (.hole 2 0) .int) .bool)] } (by rfl)).2
+    (UnifyAcyclic.acyclicB_acyclic (by decide))
+example : UnifyAcyclic.acyclicB
+    [some (.hole 1 0), some (.pi 0 false (.hole 2 0) .int), none,
+     some (.pi 0 false (.pi 0 false (.hole 2 0) .int) .bool)] = true := by decide
+-- the classic occurs-check configuration through the chain, `?2 = ?0 -> bool` i.e. `X = f X`:
+-- the answer is `false` and the store is unchanged
+example :
+    (match unifyS 20 (.hole 2 0) (.pi 0 false (.hole 0 0) .bool) { store := UnifyAcyclic.exStore } with
+     | .ok r s' => r == false && s'.store == UnifyAcyclic.exStore
+     | _ => false) = true := by decide
+-- an assignment, as `C12_assigned_not_self` describes it
+example : solveS 10 3 0 (.pi 0 false (.hole 0 0) .bool) { store := UnifyAcyclic.exStore } =
+    .ok (some true) { store := [some (.hole 1 0), some (.pi 0 false (.hole 2 0) .int), none,
+      some (.pi 0 false (.pi 0 false (.hole 2 0) .int) .bool)] } := by rfl
+-- weak head normalisation allocating a cell (the hole copy of `open` in a β-step)
+example : (match whnfS 10 (.app (.lam 1 false .int (.hole 0 1)) (.lit 5)) { store := [none] } with
+    | .ok r s' => r == .hole 1 0 && s'.store == [none, none] | _ => false) = true := by decide
+-- the occurs check answers `true` through a chain, `false` for an unrelated empty cell
+example : (match occursS 10 2 (.hole 0 0) { store := UnifyAcyclic.exStore } with
+    | .ok b _ => b | _ => false) = true := by decide
+example : (match occursS 10 3 (.hole 0 0) { store := UnifyAcyclic.exStore } with
+    | .ok b _ => !b | _ => false) = true := by decide
+-- lowering expands the chain
+example : sshiftS 10 0 0 (.hole 0 0) { store := UnifyAcyclic.exStore } =
+    .ok (some (.pi 0 false (.hole 2 0) .int)) { store := UnifyAcyclic.exStore } := by rfl
+-- zonking on the acyclic store
+example : zonk 5 UnifyAcyclic.exStore (.hole 0 0) = some (.pi 0 false (.hole 2 0) .int) := by rfl
+-- a cyclic store is rejected by the checker, is not `Acyclic`, and `zonk` runs out of any fuel we try
+example : UnifyAcyclic.acyclicB [some (.hole 1 0), some (.pi 0 false (.hole 0 0) .int)] = false := by decide
+example : zonk 50 [some (.hole 1 0), some (.pi 0 false (.hole 0 0) .int)] (.hole 0 0) = none := by decide
